@@ -419,26 +419,30 @@ PROPS["C13"] = dict(
         # contended locks: a holder panics inside a Mutex / RwLock write guard with 1-3 waiters (lock / write / read / try_*,
         # coroutines and threads) queued or arriving; the dropper is stalled between poison.done and the release
         dict(mode="live", name="panichand", quick=300, thorough=3000, nontrivial=r"child\.panic", timeout=600),
+        # owners that catch the re-raised panic of a scoped child (catch_unwind around coroutine::scope), go on running and
+        # are cancelled afterwards: the child's panic must have no other effect on the owner (its cancel word is balanced)
+        dict(mode="live", name="scopecatch", quick=120, thorough=1500, nontrivial=r"child\.panic", timeout=600),
     ],
     trusted_base=TB_COMMON + [
         "rustc's unwinding (every guard on the stack is dropped exactly once, innermost first) and the generator crate's catch_unwind / panic capture are taken by contract",
         "pool.rs and Done::drop_coroutine are not hooked: the pool / local-data steps of worker_survives are modelled from the source and tied to the code only by the oracles (coroutines spawned after the panics complete on every worker)",
         "thread::panicking() is modelled as 'this coroutine is unwinding'; std keeps the flag per thread, so this holds of the code only while no coroutine is suspended during an unwind (finding F10). With F10.patch the scope exits (coroutine::scope, cqueue::scope) wait outside the unwind; the assumption is checked on every run by the F10 probe of families scope / panic / panicscope / paniccq (strict: an 'F10:' line is a violation). Not covered by the patch: Park::drop's wait_kernel spin and user destructors that block while unwinding (README-C14)",
         "locks are used without contention in families panic / panicscope: waiter hand-over (queues, wake-ups) is C05/C12; the model here uses their specification held -> released. Family panichand contends the lock: its replay ties the order of the two halves of a guard drop by an unwind (poison.done's store, then the cnt.fetch_sub that releases the lock word) and the flag value every grant reads to the model; the other operations of sync/mutex.rs / sync/rwlock.rs in its traces are perturbation points only (skipped by the replay)",
+        "cancel.rs is in the filter of families panic / panicscope / scopecatch (perturbation at its hooked operations; the use-after-free in the subscribes that kept it out is fixed, 7d62f03 / 128a1d4): the read-modify-write operations of Cancel::state (the canceller's fetch_or(1), the fetch_add(2) / fetch_sub(2) of the disable_cancel bracket of JoinState::join, with the previous value of the word) are steps of Model/ScopeCancel.lean that the replay runs next to the Scope model, and every load of the word by its coroutine must read the model's value (cancel bit + 2 x open brackets). Brackets of other code on the same word (Park::drop, ...) are accepted where the model allows them (properly nested); Cancel::co is skipped. A coroutine that survives a panic (catch_unwind) is outside the Scope model: scopecatch is replayed against the cancel-word model alone (Scope.catchMachine)",
         "get_panic_data / context.err live in the generator crate and are not hooked: the stack-history model (wseq, panic_slot_is_own_payload_on_reused_stack) is tied to the code by the replay of coroutine_impl.panic opt.store in run_coroutine's panic branch (a detached panicker that skips it diverges) and by the foreign-payload oracle",
     ],
     assumptions=[
         "family paniccq is checked by its oracles only (its traces are not replayed: the cqueue events are C16's model)",
         "select! owners re-raising an arm's panic (F9) belong to C16",
     ],
-    rule="live mode: 2-5 rounds x 2-5 coroutines (panic before/after yields, holding a Mutex and/or RwLock write guard; holders cancelled while holding; detached panickers whose JoinHandle is dropped before / while they run; victims cancelled while running; unrelated workers) over the reused stack pool (capacity 6), 8 fresh coroutines afterwards; family panichand: one holder that panics inside a Mutex / RwLock write guard (1 in 4: normal end) and 1-3 waiters (coroutines, threads; lock / write / read / polling try_lock / try_write / try_read) queued or arriving, perturbation at every hooked operation of sync/poison.rs, sync/mutex.rs, sync/rwlock.rs; non-trivial = at least one injected panic; distinct = SHA-1 of the canonical trace",
+    rule="live mode: 2-5 rounds x 2-5 coroutines (panic before/after yields, holding a Mutex and/or RwLock write guard; holders cancelled while holding; detached panickers whose JoinHandle is dropped before / while they run; victims cancelled while running; unrelated workers) over the reused stack pool (capacity 6), 8 fresh coroutines afterwards; family panichand: one holder that panics inside a Mutex / RwLock write guard (1 in 4: normal end) and 1-3 waiters (coroutines, threads; lock / write / read / polling try_lock / try_write / try_read) queued or arriving, perturbation at every hooked operation of sync/poison.rs, sync/mutex.rs, sync/rwlock.rs; family scopecatch: 2-4 owner coroutines wrap a coroutine::scope with 1-3 scoped children in catch_unwind, in some a child panics (joined at scope exit or explicitly), the others are controls; every owner then runs a loop of cancellation points (yield_now / sleep) and is cancelled by main after 0-4 of them (count-based oracle: at most 12 more after cancel() returned, the JoinHandle yields Error::Cancel); non-trivial = at least one injected panic; distinct = SHA-1 of the canonical trace",
 )
 
 PROPS["C14"] = dict(
     lean_props=["MayVerif.Props.C14"],
     families=[dict(mode="live", name="scope", quick=360, thorough=6000, nontrivial=r"scope\.spawn", timeout=600)],
     trusted_base=TB_COMMON + [
-        "Blocker park/unpark is the binary token of C02; the cancel behaviour of a park (returns at once for a cancelled coroutine, raises Cancel unless already unwinding) is modelled from yield_now.rs / cancel.rs and is not in this layer's trace (cancel.rs is kept out of the filter, see README-C14: use-after-free in subscribe under perturbation)",
+        "Blocker park/unpark is the binary token of C02; the cancel behaviour of a park (returns at once for a cancelled coroutine, raises Cancel unless already unwinding) is modelled from yield_now.rs / cancel.rs and is not in this layer's trace. cancel.rs is in the filter of family scope since wp-scope4 (the use-after-free in the subscribes is fixed): the canceller's fetch_or(1), the fetch_add(2) / fetch_sub(2) of the disable_cancel bracket of JoinState::join and the loads of the word are tied (steps / values of Model/ScopeCancel.lean next to the Scope model, theorems in Props/C13), Cancel::co is skipped",
         "rustc's unwinding / catch_unwind (scope catches a panic of f and of every dtor, runs all dtors and resumes the first payload; before F10.patch: Drop for Scope runs when f or a dtor unwinds) is taken by contract",
         "thread::panicking() is modelled as 'this coroutine is unwinding' (finding F10; with F10.patch a scope exit never waits inside an unwind, checked on every run by the strict F10 probe of the family)",
         "the variant of JoinState::join (pinned / F5.patch) is detected from the trace at the first scoped join; scope_exit_after_children is proved for the fixed variant, _partial + witness for the pinned one",
